@@ -227,10 +227,6 @@ theorem inv3_reset (n : Net) (s : State) : Inv3 n (reset n s) := by
 theorem reset_wf (n : Net) (s : State) (h : WF s) : WF (reset n s) := by
   unfold WF reset at *; rw [List.map_map]; exact h
 
-/-- the access level an exploit / escalation grants is USER or ROOT (what the loader and the
-generator guarantee for every action of the action space) -/
-def ActOk (a : Action) : Prop := 1 ≤ a.grant ∧ a.grant ≤ 2
-
 /-- states reachable from `s0` by any history of actions and draws -/
 inductive Reach (n : Net) (s0 : State) : State → Prop
   | init : Reach n s0 s0
